@@ -5,10 +5,14 @@ package main
 //
 // Exchange format (identical to the comment at the top of coq/model/Prune.v):
 //
-//	case   = (mode state (op ...))
+//	case   = (mode state (op ...) [env])
+//	env    = (tz ((txgroup ageMinutes) ...) [tzBuild])   tz: process time zone while the ops run (0 = leave time.Local alone,
+//	         else UTC offset in minutes + 1000); age of the transaction row of group num/4 (default 0 = opened now);
+//	         tzBuild: zone while the repository is built (0 = same as tz).  The model ignores tz: results must not depend on it.
 //	mode   = 0 prune.Prune(db, rs, nil) in-process: objmock store wrapped in a recording store + in-memory sqlite refs
 //	         1 `wrgl prune` in-process (wrgl.RootCmd) on a real repo dir (badger + sqlite) under ctx.Tmp
 //	         2 `wrgl gc` likewise
+//	         3 prune.Prune in-process on a recording store over the REAL badger store of a repo dir (+ its sqlite ref store)
 //	state  = (commits tables tblidx prof blocks blkidx refs)
 //	commits= ((id tableid (parent ...) [salt]) ...)     first binding of an id wins
 //	tables = ((id (blk ...) (blkidx ...) flavor [salt]) ...)   flavor 0 crafted object | 1 built by the real ingest
@@ -21,7 +25,10 @@ package main
 //	         txs/<uuid>/feature/x<num>, txs/<uuid>/a/b/c<num>, ...: see c12RefName); transaction groups with (num/4)%3 != 2
 //	         exist as rows of the ref store, the others are txs/ refs without a transaction row
 //	op     = (0) prune | (1 kind num) delete ref | (2 kind num commit) set ref
-//	       | (3 k) prune on a store whose (k+1)-th Delete fails and deletes nothing (mode 0 only)
+//	       | (3 k) prune on a store whose (k+1)-th Delete fails and deletes nothing (modes 0 and 3)
+//	       | (4 ttl) gc exactly as cmd/wrgl/gc_cmd.go: transaction.GarbageCollect(db, rs, ttl minutes) then prune.Prune
+//	         (modes 0, 3; mode 2: `wrgl gc` with transactionTTL = ttl in the repo config); obs = prune obs + the ref names
+//	         (kind<<32 | num) left in the ref store, ascending
 //	obs    = (r ...) one per op; r = () for ops 1,2 (and unknown tags); for ops 0,3: (status trace keysets)
 //	         status  0 nil error | 1 error          (2 panic / 3 fuel exist only on the model side)
 //	         trace   mode 0: ((kind ...) (T ids) (TI ids) (P ids) (B ids) (BI ids) (C ids)); modes 1,2: ()
@@ -59,6 +66,8 @@ import (
 
 	wrgl "github.com/wrgl/wrgl/cmd/wrgl"
 	wrglutils "github.com/wrgl/wrgl/cmd/wrgl/utils"
+	"github.com/wrgl/wrgl/pkg/conf"
+	conffs "github.com/wrgl/wrgl/pkg/conf/fs"
 	"github.com/wrgl/wrgl/pkg/ingest"
 	"github.com/wrgl/wrgl/pkg/local"
 	"github.com/wrgl/wrgl/pkg/objects"
@@ -67,6 +76,7 @@ import (
 	"github.com/wrgl/wrgl/pkg/ref"
 	refsql "github.com/wrgl/wrgl/pkg/ref/sql"
 	"github.com/wrgl/wrgl/pkg/sorter"
+	"github.com/wrgl/wrgl/pkg/transaction"
 
 	"verifharness/xt"
 )
@@ -658,9 +668,22 @@ func c12RefNameOf(kind, num uint64) (string, error) {
 // oracle's roots are this map (every ref of the case, whatever its name looks like), not a listing
 // of the store.
 type c12Refs struct {
-	rs  ref.Store
-	txs map[string]bool
-	cur map[string]string
+	rs   ref.Store
+	cur  map[string]string    // expected refs: name -> sum
+	kn   map[string][2]uint64 // name -> (kind, num)
+	ages map[uint64]uint64    // transaction group -> age of its row in minutes
+}
+
+// ensureTx: the transaction row of the group of num exists; its begin is "age minutes ago" on the
+// process clock and in the process time zone, as a client that opened it then would have stored it
+func (r *c12Refs) ensureTx(num uint64) error {
+	tx := c12TxID(num)
+	if _, err := r.rs.GetTransaction(tx.ID); err == nil {
+		return nil
+	}
+	tx.Begin = time.Now().Add(-time.Duration(r.ages[num/4]) * time.Minute)
+	_, err := r.rs.NewTransaction(&tx)
+	return err
 }
 
 func (r *c12Refs) set(kind, num uint64, sum string) error {
@@ -669,18 +692,15 @@ func (r *c12Refs) set(kind, num uint64, sum string) error {
 		return err
 	}
 	if kind == 3 && c12TxHasRow(num) {
-		tx := c12TxID(num)
-		if !r.txs[tx.ID.String()] {
-			if _, err := r.rs.NewTransaction(&tx); err != nil {
-				return err
-			}
-			r.txs[tx.ID.String()] = true
+		if err := r.ensureTx(num); err != nil {
+			return err
 		}
 	}
 	if r.cur == nil {
-		r.cur = map[string]string{}
+		r.cur, r.kn = map[string]string{}, map[string][2]uint64{}
 	}
 	r.cur[name] = sum
+	r.kn[name] = [2]uint64{kind, num}
 	return r.rs.Set(name, []byte(sum))
 }
 
@@ -691,6 +711,26 @@ func (r *c12Refs) del(kind, num uint64) error {
 	}
 	delete(r.cur, name)
 	return r.rs.Delete(name)
+}
+
+// c12Expired: gc with this TTL has to discard the transaction of this ref (kind 3, row present, old enough)
+func c12Expired(ages map[uint64]uint64, ttl uint64, kind, num uint64) bool {
+	return kind == 3 && c12TxHasRow(num) && ages[num/4] >= ttl
+}
+
+// expire removes the refs of the transactions a gc with this TTL must discard from the expected map
+func (r *c12Refs) expire(ttl uint64) (gone map[string]bool) {
+	gone = map[string]bool{}
+	for name := range r.cur {
+		kn := r.kn[name]
+		if c12Expired(r.ages, ttl, kn[0], kn[1]) {
+			gone[name] = true
+		}
+	}
+	for name := range gone {
+		delete(r.cur, name)
+	}
+	return gone
 }
 
 // roots: the targets of the expected refs, in name order
@@ -707,27 +747,26 @@ func (r *c12Refs) roots() []string {
 	return l
 }
 
-// storeDiff compares the ref store with the expected ref map ("" = equal)
-func (r *c12Refs) storeDiff() string {
+// storeDiff compares the ref store with the expected ref map: refs missing from the store (or pointing
+// elsewhere), refs the store has but the map has not
+func (r *c12Refs) storeDiff() (missing, extra []string, err error) {
 	m, err := ref.ListAllRefs(r.rs)
 	if err != nil {
-		return err.Error()
+		return nil, nil, err
 	}
 	for n, sum := range r.cur {
-		got, ok := m[n]
-		if !ok {
-			return fmt.Sprintf("ref %s is missing from the ref store", n)
-		}
-		if string(got) != sum {
-			return fmt.Sprintf("ref %s points at %x, expected %x", n, got, sum)
+		if got, ok := m[n]; !ok || string(got) != sum {
+			missing = append(missing, n)
 		}
 	}
 	for n := range m {
 		if _, ok := r.cur[n]; !ok {
-			return fmt.Sprintf("unexpected ref %s in the ref store", n)
+			extra = append(extra, n)
 		}
 	}
-	return ""
+	sort.Strings(missing)
+	sort.Strings(extra)
+	return
 }
 
 // ---------------------------------------------------------------------------
@@ -802,8 +841,10 @@ func c12Set(l []uint64) map[uint64]bool {
 	return m
 }
 
-func (p *c12Plan) build(db objects.Store, refs *c12Refs) error {
+func (p *c12Plan) build(raw objects.Store, refs *c12Refs) error {
 	st := p.st
+	wr := &c12Rec{inner: raw, failAt: -1}
+	var db objects.Store = wr
 	want := map[string]bool{} // full keys expected in the store
 	// real ingest first (it stores blocks, indices, table index, profile, table)
 	for _, t := range p.tbls {
@@ -890,25 +931,19 @@ func (p *c12Plan) build(db objects.Store, refs *c12Refs) error {
 		}
 		want["com/"+p.comSum[id]] = true
 	}
-	// drop what the abstract state says is not stored
-	have := 0
-	for _, pre := range c12Prefixes {
-		keys, err := db.FilterKey([]byte(pre))
-		if err != nil {
-			return err
-		}
-		for _, k := range keys {
-			if want[string(k)] {
-				have++
-				continue
-			}
-			if err := db.Delete(k); err != nil {
+	// drop what the abstract state says is not stored: every key written above went through [wr], so this
+	// does not rely on the key listing of the store under test
+	for _, le := range wr.log {
+		if le.op == 'S' && !want[le.key] {
+			if err := raw.Delete([]byte(le.key)); err != nil {
 				return err
 			}
 		}
 	}
-	if have != len(want) {
-		return fmt.Errorf("HARNESS BUG: %d keys wanted, %d present", len(want), have)
+	for k := range want {
+		if !raw.Exist([]byte(k)) {
+			return fmt.Errorf("HARNESS BUG: key %q was written but is not in the store", k)
+		}
 	}
 	// refs
 	seen := map[string]bool{}
@@ -1160,25 +1195,54 @@ func c12Expect(g *c12G) *c12Exp {
 // snapshots of the real store, through the repository's own readers
 
 type c12Snap struct {
-	g       *c12G
-	badCom  []string // keys that do not decode
-	badTbl  []string
-	readErr error
+	g        *c12G
+	listDiff string   // the store's key listing disagrees with point lookups
+	badCom   []string // keys that do not decode
+	badTbl   []string
+	readErr  error
 }
 
-func c12Snapshot(db objects.Store, refs *c12Refs) *c12Snap {
+// c12Snapshot: which objects are stored is decided by point lookups (Exist) of every key the case can ever hold
+// (the plan's universe), so the oracle does not depend on the key listing the code under test uses; the listing
+// (objects.GetAll*Keys = store.FilterKey) is compared with it and any difference is reported on its own.
+func c12Snapshot(db objects.Store, refs *c12Refs, plan *c12Plan) *c12Snap {
 	s := &c12Snap{g: &c12G{commits: map[string]*c12GC{}, tables: map[string]*c12GT{}}}
 	fail := func(err error) *c12Snap { s.readErr = err; return s }
 	getters := []func(objects.Store) ([][]byte, error){objects.GetAllTableKeys, objects.GetAllTableIndexKeys,
 		objects.GetAllTableProfileKeys, objects.GetAllBlockKeys, objects.GetAllBlockIndexKeys, objects.GetAllCommitKeys}
+	universe := [6]map[string]uint64{plan.tblID, plan.tblID, plan.tblID, plan.blkID, plan.idxID, plan.comID}
 	for k, get := range getters {
 		s.g.sets[k] = map[string]bool{}
+		for sum := range universe[k] {
+			if db.Exist([]byte(c12Prefixes[k] + sum)) {
+				s.g.sets[k][sum] = true
+			}
+		}
 		keys, err := get(db)
 		if err != nil {
 			return fail(err)
 		}
+		listed := map[string]int{}
 		for _, key := range keys {
-			s.g.sets[k][string(key)] = true
+			listed[string(key)]++
+		}
+		for key, n := range listed {
+			switch {
+			case n > 1 && s.listDiff == "":
+				s.listDiff = fmt.Sprintf("%s key %x is listed %d times", c12KindName[k], key, n)
+			case !s.g.sets[k][key] && s.listDiff == "":
+				if _, known := universe[k][key]; known || !db.Exist([]byte(c12Prefixes[k]+key)) {
+					s.listDiff = fmt.Sprintf("%s key %x is listed but not stored", c12KindName[k], key)
+				} else {
+					s.g.sets[k][key] = true // a key outside the case's universe that really is there: judged below
+				}
+			}
+		}
+		for key := range s.g.sets[k] {
+			if listed[key] == 0 && s.listDiff == "" {
+				s.listDiff = fmt.Sprintf("%s key %x is stored but missing from the key listing (%d keys listed, %d stored)",
+					c12KindName[k], key, len(keys), len(s.g.sets[k]))
+			}
 		}
 	}
 	for c := range s.g.sets[5] {
@@ -1269,13 +1333,42 @@ func c12Run(ctx *Ctx, c *xt.T) (*xt.T, Verdict) {
 	mode := c12Num(c12Nth(c, 0))
 	st := c12DecodeState(c12Nth(c, 1))
 	ops := c12Kids(c12Nth(c, 2))
-	if mode > 2 {
+	if mode > 3 {
 		return c12Malformed("unknown mode %d", mode)
+	}
+	envT := c12Nth(c, 3)
+	tz, tzBuild := c12Num(c12Nth(envT, 0)), c12Num(c12Nth(envT, 2))
+	if tz > 2000 || tzBuild > 2000 {
+		return c12Malformed("time zone code out of range")
+	}
+	if tzBuild == 0 {
+		tzBuild = tz
+	}
+	ages := map[uint64]uint64{}
+	for _, k := range c12Kids(c12Nth(envT, 1)) {
+		g, a := c12Num(c12Nth(k, 0)), c12Num(c12Nth(k, 1))
+		if a > 1<<30 {
+			return c12Malformed("transaction age too large")
+		}
+		if _, dup := ages[g]; !dup { // first binding wins, as in the model
+			ages[g] = a
+		}
+	}
+	oldLocal := time.Local
+	defer func() { time.Local = oldLocal }()
+	setZone := func(code uint64) {
+		if code != 0 {
+			off := int(code) - 1000
+			time.Local = time.FixedZone(fmt.Sprintf("c12%+d", off), off*60)
+		}
 	}
 	for _, op := range ops {
 		tag := c12Num(c12Nth(op, 0))
-		if tag == 3 && mode != 0 {
+		if tag == 3 && mode != 0 && mode != 3 {
 			return c12Malformed("crash op in mode %d", mode)
+		}
+		if tag == 4 && (mode == 1 || c12Num(c12Nth(op, 1)) > 1<<30) {
+			return c12Malformed("gc op in mode %d / ttl too large", mode)
 		}
 		if tag == 1 || tag == 2 {
 			if _, err := c12RefNameOf(c12Num(c12Nth(op, 1)), c12Num(c12Nth(op, 2))); err != nil {
@@ -1309,7 +1402,7 @@ func c12Run(ctx *Ctx, c *xt.T) (*xt.T, Verdict) {
 				panic(err)
 			}
 		}
-		env.refs = &c12Refs{rs: refsql.NewStore(sdb), txs: map[string]bool{}}
+		env.refs = &c12Refs{rs: refsql.NewStore(sdb), ages: ages}
 		env.rec = &c12Rec{inner: env.db, failAt: -1}
 	} else {
 		root, err := os.MkdirTemp(ctx.Tmp, "c12repo")
@@ -1335,11 +1428,16 @@ func c12Run(ctx *Ctx, c *xt.T) (*xt.T, Verdict) {
 				env.db.Close()
 			}
 		})
-		env.refs = &c12Refs{rs: rd.OpenRefStore(), txs: map[string]bool{}}
+		env.refs = &c12Refs{rs: rd.OpenRefStore(), ages: ages}
+		if mode == 3 {
+			env.rec = &c12Rec{inner: env.db, failAt: -1}
+		}
 	}
+	setZone(tzBuild)
 	if err := plan.build(env.db, env.refs); err != nil {
 		return c12Malformed("%v", err)
 	}
+	setZone(tz)
 
 	out := xt.N()
 	v := OK()
@@ -1371,7 +1469,9 @@ func c12Run(ctx *Ctx, c *xt.T) (*xt.T, Verdict) {
 				}
 				limit = int(k)
 			}
-			out.Add(env.pruneOp(ctx, opi, limit, bad))
+			out.Add(env.pruneOp(ctx, opi, limit, -1, bad))
+		case 4:
+			out.Add(env.pruneOp(ctx, opi, -1, int64(c12Num(c12Nth(op, 1))), bad))
 		default:
 			out.Add(xt.N())
 		}
@@ -1380,10 +1480,45 @@ func c12Run(ctx *Ctx, c *xt.T) (*xt.T, Verdict) {
 }
 
 // pruneOp runs one prune (limit >= 0: the (limit+1)-th Delete fails), observes and judges it.
-func (e *c12Env) pruneOp(ctx *Ctx, opi int, limit int, bad func(class, format string, a ...interface{})) *xt.T {
-	before := c12Snapshot(e.db, e.refs)
-	if d := e.refs.storeDiff(); d != "" {
-		bad("c12-ref-store-mismatch", "op %d: before the prune: %s", opi, d)
+func (e *c12Env) checkRefs(opi int, when string, gone map[string]bool, bad func(class, format string, a ...interface{})) {
+	missing, extra, err := e.refs.storeDiff()
+	if err != nil {
+		bad("c12-snapshot-failed", "op %d: %s: cannot list the refs: %v", opi, when, err)
+		return
+	}
+	for _, n := range missing {
+		if strings.HasPrefix(n, "txs/") && gone != nil {
+			bad("c12-gc-open-transaction-discarded", "op %d: %s: ref %s of a transaction younger than the TTL (or without a row) is gone", opi, when, n)
+		} else {
+			bad("c12-ref-store-mismatch", "op %d: %s: ref %s is missing from the ref store or was moved", opi, when, n)
+		}
+	}
+	for _, n := range extra {
+		if gone[n] {
+			bad("c12-gc-expired-transaction-kept", "op %d: %s: ref %s of a transaction older than the TTL is still there", opi, when, n)
+		} else {
+			bad("c12-ref-store-mismatch", "op %d: %s: unexpected ref %s in the ref store", opi, when, n)
+		}
+	}
+}
+
+// pruneOp runs one prune (limit >= 0: the (limit+1)-th Delete fails; gcTTL >= 0: transaction.GarbageCollect
+// with that TTL in minutes first, as `wrgl gc` does), observes and judges it.
+func (e *c12Env) pruneOp(ctx *Ctx, opi int, limit int, gcTTL int64, bad func(class, format string, a ...interface{})) *xt.T {
+	e.checkRefs(opi, "before the op", nil, bad)
+	var gone map[string]bool
+	if gcTTL >= 0 {
+		// what the gc half has to do, decided from the case alone: the roots of the prune half
+		gone = e.refs.expire(uint64(gcTTL))
+		ctx.Count("gc_ops")
+		if len(gone) > 0 {
+			ctx.Count("gc_ops_expiring_a_transaction")
+		}
+	}
+	before := c12Snapshot(e.db, e.refs, e.plan)
+	listMsg := ""
+	if before.listDiff != "" {
+		listMsg = "before the prune: " + before.listDiff
 	}
 	if before.readErr != nil {
 		bad("c12-snapshot-failed", "op %d: cannot read the store before the prune: %v", opi, before.readErr)
@@ -1395,10 +1530,27 @@ func (e *c12Env) pruneOp(ctx *Ctx, opi int, limit int, bad func(class, format st
 
 	var runErr error
 	switch e.mode {
-	case 0:
+	case 0, 3:
 		e.rec.arm(limit)
-		runErr = prune.Prune(e.rec, e.refs.rs, nil)
+		if gcTTL >= 0 {
+			// cmd/wrgl/gc_cmd.go: transaction.GarbageCollect(db, rs, c.GetTransactionTTL(), bar); then runPrune
+			runErr = transaction.GarbageCollect(e.rec, e.refs.rs, time.Duration(gcTTL)*time.Minute, nil)
+		}
+		if runErr == nil {
+			runErr = prune.Prune(e.rec, e.refs.rs, nil)
+		}
 	default:
+		if gcTTL >= 0 {
+			cs := conffs.NewStore(e.dir, conffs.LocalSource, "")
+			cfg, err := cs.Open()
+			if err != nil {
+				panic(err)
+			}
+			cfg.TransactionTTL = conf.Duration(time.Duration(gcTTL) * time.Minute)
+			if err := cs.Save(cfg); err != nil {
+				panic(err)
+			}
+		}
 		if err := e.db.Close(); err != nil {
 			panic(err)
 		}
@@ -1418,10 +1570,11 @@ func (e *c12Env) pruneOp(ctx *Ctx, opi int, limit int, bad func(class, format st
 		}
 		e.db = db
 	}
-	after := c12Snapshot(e.db, e.refs)
-	if d := e.refs.storeDiff(); d != "" {
-		bad("c12-ref-store-mismatch", "op %d: after the prune (prune / gc must not touch the refs of the case): %s", opi, d)
+	after := c12Snapshot(e.db, e.refs, e.plan)
+	if after.listDiff != "" && listMsg == "" {
+		listMsg = "after the prune: " + after.listDiff
 	}
+	e.checkRefs(opi, "after the op (prune must not touch refs, gc only those of expired transactions)", gone, bad)
 	if after.readErr != nil {
 		bad("c12-snapshot-failed", "op %d: cannot read the store after the prune: %v", opi, after.readErr)
 	}
@@ -1433,7 +1586,7 @@ func (e *c12Env) pruneOp(ctx *Ctx, opi int, limit int, bad func(class, format st
 	}
 	trace := xt.N()
 	var delLog []c12Del
-	if e.mode == 0 {
+	if e.rec != nil {
 		kinds := xt.N()
 		var ids [6][]uint64
 		for _, le := range e.rec.log {
@@ -1479,6 +1632,19 @@ func (e *c12Env) pruneOp(ctx *Ctx, opi int, limit int, bad func(class, format st
 		keysets.Add(c12U64s(c12SortU64(ids)))
 	}
 	obs := xt.N(xt.LI(status), trace, keysets)
+	if gcTTL >= 0 {
+		var names []uint64
+		if m, err := ref.ListAllRefs(e.refs.rs); err == nil {
+			for n := range m {
+				kn, ok := e.refs.kn[n]
+				if !ok {
+					kn = [2]uint64{9, 0}
+				}
+				names = append(names, kn[0]<<32|kn[1])
+			}
+		}
+		obs.Add(c12U64s(c12SortU64(names)))
+	}
 
 	// ---- judgement
 	describe := func(k int, sum string) string {
@@ -1604,8 +1770,8 @@ func (e *c12Env) pruneOp(ctx *Ctx, opi int, limit int, bad func(class, format st
 			}
 		}
 	}
-	// trace discipline (mode 0)
-	if e.mode == 0 {
+	// trace discipline (modes 0, 3)
+	if e.rec != nil {
 		for _, le := range e.rec.log {
 			if le.op != 'D' {
 				bad("c12-unexpected-write", "op %d: prune called %c on %q", opi, le.op, le.key)
@@ -1670,6 +1836,10 @@ func (e *c12Env) pruneOp(ctx *Ctx, opi int, limit int, bad func(class, format st
 				bad("c12-crash-count", "op %d: %d deletes succeeded but call #%d had to fail", opi, nDel, limit+1)
 			}
 		}
+	}
+	// reported last, so that the damage done to the repository (if any) names the case
+	if listMsg != "" {
+		bad("c12-key-listing-wrong", "op %d: objects.GetAll*Keys disagrees with point lookups: %s", opi, listMsg)
 	}
 	return obs
 }
